@@ -80,7 +80,10 @@ def dump_version(v):
 
 
 def dump_zone(z):
-    return tuple(dump_version(v) for v in z._versions)
+    try:
+        return tuple(dump_version(v) for v in z._versions)
+    except Exception as e:  # noqa  (a snapshot damaged so badly that it cannot be read any more)
+        return ("unreadable", type(e).__name__, str(e)[:80])
 
 
 # ---- twins: a mutable object with the same content ------------------------------------------------
@@ -241,9 +244,10 @@ def short(x):
 
 
 class Enum:
-    def __init__(self, ctx, kind):
+    def __init__(self, ctx, kind, only=None):
         self.ctx = ctx
         self.kind = kind
+        self.only = only  # (role, callable) when replaying one reported call
         self.fails = []
         self.evals = 0
         self.mutating = 0
@@ -258,14 +262,19 @@ class Enum:
         self.fails.append({
             "kind": "C11:immutability:" + what, "what": what, "sig": (what, role, name),
             "zone": ("dns.versioned.Zone", "dns.btreezone.Zone")[self.kind],
-            "object": role, "callable": name, "args": [short(a) for a in args], **kw,
+            "object": role, "callable": name, "args": [short(a) for a in args],
+            "case": [2, self.kind, role, name], **kw,
         })
 
     def sweep(self, role, get, make_twin, dump_twin, pool, names=None):
         """get() -> the snapshot object (re-fetched after a rebuild)"""
+        if self.only and self.only[0] != role:
+            return
         o = get()
         tw = make_twin(o)
         for name in names or public_callables(o, tw):
+            if self.only and self.only[1] != name:
+                continue
             for args in pool:
                 t = make_twin(get())
                 before = dump_twin(t)
@@ -282,6 +291,8 @@ class Enum:
 
     def setattrs(self, role, get, names):
         sentinel = ()
+        if self.only and self.only[0] != role:
+            return
         for n in names:
             o = get()
             if not hasattr(o, n):
@@ -310,6 +321,8 @@ class Enum:
             ("delete", ("a",)), ("delete", ("a", "A")), ("delete_exact", ("a", "A")),
             ("update_serial", ()), ("update_serial", (5, False)),
         ]:
+            if self.only and self.only != ("read transaction", name):
+                continue
             raised = call(self.r, name, args)
             self.evals += 1
             self.mutating += 1
@@ -334,6 +347,8 @@ class Enum:
             # version's own public callables: none may change anything
             v = gv()
             for name in public_callables(v):
+                if self.only and self.only != (f"version[{vi}]", name):
+                    continue
                 for args in [(), (N("a"),), (N("a"), T.A, NONE), ("a",), (N("zzz"),)]:
                     call(gv(), name, args)
                     self.evals += 1
@@ -369,7 +384,7 @@ class Enum:
                 if g is not r_:
                     self.sweep(f"txn.get({nm},{T.to_text(r_.rdtype)})", lambda: self.r.get(N(nm), r_.rdtype),
                                twin_rdataset, dump_rds, pool_rdataset(r_))
-        for name, r_ in list(self.r.iterate_rdatasets())[:4]:
+        for name, r_ in [] if self.only else list(self.r.iterate_rdatasets())[:4]:
             if not isinstance(r_, dns.rdataset.ImmutableRdataset):
                 self.fail("a mutating call did not raise", "txn.iterate_rdatasets()", "<type>", (short(r_),))
         # --- the zone's own read accessors
@@ -384,6 +399,8 @@ class Enum:
             ("delete_rdataset", ("a", "A")), ("replace_rdataset", ("a", rds("A", 300, "10.9.9.9"))),
             ("__setitem__", (N("a"), dns.zone.VersionedNode())), ("__delitem__", (N("a"),)),
         ]:
+            if self.only and self.only != ("zone", name):
+                continue
             raised = call(z, name, args)
             self.evals += 1
             self.mutating += 1
@@ -394,11 +411,27 @@ class Enum:
                 self.fail("a mutating call did not raise", "zone", name, args)
 
 
+def replay(case):
+    """re-run the calls of one reported (object role, callable) pair; returns the failures found"""
+    _, kind, role, name = case
+    role = role.decode("latin-1") if isinstance(role, bytes) else role
+    name = name.decode("latin-1") if isinstance(name, bytes) else name
+    e = Enum(None, kind, only=(role, name))
+    e.run(True)
+    return e.fails
+
+
 def check(ctx):
     fails = []
     evals = mut = 0
     for kind in (0, 1):
-        e = Enum(ctx, kind)
+        try:
+            e = Enum(ctx, kind)
+        except Exception as ex:  # noqa
+            import traceback
+            fails.append({"kind": "C11:immutability:building the zone raised", "what": "building a versioned zone raised",
+                          "sig": "build", "text": traceback.format_exc()[-1500:]})
+            continue
         try:
             e.run(not ctx.quick)
         except Exception as ex:  # noqa
